@@ -272,7 +272,11 @@ func RunOne(t *testing.T, prop *PropDef, seed uint64, index int, tier string, re
 		fmt.Fprintf(os.Stderr, "WATCHDOG prop=%s seed=%d index=%d: run exceeded %v of wall time\n%s\n", prop.ID, seed, index, wallLimit, buf[:n])
 		os.Exit(3)
 	})
-	func() {
+	// On its own goroutine: when the race detector flags the bubble, synctest.Test ends
+	// with t.FailNow(), i.e. runtime.Goexit, which must not take the worker loop with it.
+	bubbleDone := make(chan struct{})
+	go func() {
+		defer close(bubbleDone)
 		defer func() {
 			if r := recover(); r != nil {
 				res.BubbleEnd = fmt.Sprint(r)
@@ -300,6 +304,7 @@ func RunOne(t *testing.T, prop *PropDef, seed uint64, index int, tier string, re
 			res.Alive = s.Alive()
 		})
 	}()
+	<-bubbleDone
 	wd.Stop()
 	s := w.Sched
 	res.Wall = time.Since(startWall)
